@@ -210,6 +210,24 @@ func (rc *RunCtx) matrixFamily(build func() ([]MatrixRec, error), prefix string)
 
 var _ = run.Query
 
+// cmpUniverse: every ordered pair of the value corpus under ==, < and >= as
+// predicate checks (for C01: the comparison rules are part of the evaluation
+// rules; the matrix laws themselves belong to C12).
+func cmpUniverse(slots []slot) *ExecUniverse {
+	u := &ExecUniverse{}
+	for _, a := range slots {
+		la, va := operand(a, "a")
+		for _, b := range slots {
+			lb, vb := operand(b, "b")
+			vars := append(append([]wire.Var{}, va...), vb...)
+			for _, op := range []string{"eq", "lt", "ge"} {
+				u.addCase(wire.Path{Lax: true, Pred: true, Chain: []wire.Node{{K: "bin", Op: op, L: la, R: lb}}}, wire.Null(), vars)
+			}
+		}
+	}
+	return u
+}
+
 // regexUniverse: like_regex patterns x flag sets, as a filter over an array of
 // subjects (each case decides every subject at once) and as predicate checks
 // on single subjects (shared by C12 and C05).
